@@ -327,6 +327,14 @@ func C03(run *vf.Run) {
 				check(c, "uri", got, 37, "REQUEST_HEADERS_NAMES", [][2]string{{"Host", "Host"}})
 				check(c, "uri", got, 39, "&ARGS", [][2]string{{"", strconv.Itoa(len(kv))}})
 			}
+			if i%7 == 0 { // the last path separator may be a backslash (raw or percent-encoded)
+				for _, path := range []string{"/app/..\\admin\\p.ext", `/app/x%5Cp.ext`, "/a\\b/p.ext"} {
+					got, _, p = c03Run(w, path+"?"+string(c.Query), nil, "", nil)
+					if p == "" {
+						check(c, "uri-backslash", got, 32, "REQUEST_BASENAME", [][2]string{{"", "p.ext"}})
+					}
+				}
+			}
 			// (b) urlencoded body
 			if len(c.Query) > 0 {
 				got, _, p = c03Run(w, "/p", nil, "application/x-www-form-urlencoded", []byte(c.Query))
@@ -533,6 +541,8 @@ SecRule REQBODY_ERROR "@eq 1" "id:20,phase:2,pass,nolog"
 	}
 	cases := []sc{
 		{"JSON", "application/json", `{"a":"x","b":{"c":"y%2541"}}`, [][2]string{{"json.a", "x"}, {"json.b.c", "y%2541"}}, false, "nested object, value that looks percent-encoded"},
+		{"JSON", "application/json", `{"n":1.50,"e":1e2,"z":-0.0,"big":12345678901234567890.5,"i":007,"t":true,"nil":null}`, nil, false, "number literals"},
+		{"JSON", "application/json", `{"n":1.50,"e":1E+2,"z":-0.0,"big":12345678901234567890.5,"t":true,"nil":null}`, [][2]string{{"json.n", "1.50"}, {"json.e", "1E+2"}, {"json.z", "-0.0"}, {"json.big", "12345678901234567890.5"}, {"json.t", "true"}, {"json.nil", ""}}, false, "number literals are exposed as written"},
 		{"JSON", "application/json", `{"a":["x","y"]}`, [][2]string{{"json.a", "2"}, {"json.a.0", "x"}, {"json.a.1", "y"}}, false, "array"},
 		{"JSON", "application/json", `{"a":"1","a":"2"}`, nil, false, "duplicate key (both values must stay visible)"},
 		{"JSON", "application/json", `{"a":`, nil, true, "truncated JSON"},
